@@ -322,3 +322,13 @@ impl<N> std::ops::IndexMut<NodeIndex<FnIdInner>> for Dag<N, Edge, FnIdInner> {
             final(self).wf() == old(self).wf(),
     { unimplemented!() }
 }
+
+impl<N> Dag<N, Edge, FnIdInner> {
+    /// `Dag::node_weight(i)`: Some(&weights[i]) iff i is a node
+    #[verifier::external_body]
+    pub fn node_weight(&self, i: NodeIndex<FnIdInner>) -> (r: Option<&N>)
+        ensures
+            i.0.0 < self.n() ==> r is Some && *r->Some_0 == self.weights()[i.0.0 as int],
+            i.0.0 >= self.n() ==> r is None,
+    { unimplemented!() }
+}
